@@ -72,7 +72,7 @@ theorem mapM_filterMap_sublist {α β γ : Type} (f : α → M (Option β)) (g :
         | some x =>
           simp only [List.filterMap_cons, id, List.map_cons]
           rw [hf a List.mem_cons_self x ha]
-          exact List.Sublist.cons₂ _ iht
+          exact List.Sublist.cons_cons _ iht
 
 /-! ### index order of the ledger's records -/
 
@@ -498,5 +498,122 @@ theorem watch_refines_exact {s : Store} {L : Ledger} (hg : Good s L) (hs : Sorte
     exact unspent_key_inChain hg (ha.subset (List.mem_map.mpr ⟨c, hc, rfl⟩))
   · intro c hc
     exact ucredit_key_inPool hg (hb.subset (List.mem_map.mpr ⟨c, hc, rfl⟩))
+
+/-! ### `RangeTransactions`, exactly -/
+
+/-- `Ledger.range` with the unconfirmed batch listing the transactions `pool'` (in that order) -/
+def rangeWith (L : Ledger) (pool' : List Tx) (b e : Int) : List (List Details) :=
+  (if b < 0 then (if pool'.isEmpty then [] else [pool'.map fun t => detailsOf L t none]) else []) ++
+    rangeMidL L b e ++
+    (if !(b < 0) && e < 0 then (if pool'.isEmpty then [] else [pool'.map fun t => detailsOf L t none]) else [])
+
+theorem rangeWith_pool (L : Ledger) (b e : Int) : rangeWith L L.pool b e = Ledger.range L b e := rfl
+
+/-- one block batch: the block's transactions in the order the wallet learned them, each with the ledger's record -/
+theorem blockDetails_exact {s : Store} {L : Ledger} (hg : Good s L) (hs : SortedS s) {lb : LBlock} (hlb : lb ∈ L.chain) :
+    blockDetails s (blockEntry lb).1 (blockEntry lb).2 = .ok (lb.txs.map fun t => detailsOf L t (some lb.bm)) := by
+  have hm : ∀ t ∈ lb.txs, (t, lb.bm) ∈ chainTxs L := fun t ht => mem_chainTxs.mpr ⟨lb, hlb, rfl, ht⟩
+  unfold blockDetails
+  show ((lb.txs.map (·.hash)).mapM _) = _
+  have : ∀ (l : List Tx), (∀ t ∈ l, t ∈ lb.txs) →
+      (l.map (·.hash)).mapM (fun txHash =>
+        match s.txrecs.find? ⟨txHash, ⟨lb.bm.block.height, lb.bm.block.hash⟩⟩ with
+        | none => (throw Err.data : M Details)
+        | some rec => minedTxDetails s ⟨txHash, ⟨lb.bm.block.height, lb.bm.block.hash⟩⟩ rec) =
+      .ok (l.map fun t => detailsOf L t (some lb.bm)) := by
+    intro l
+    induction l with
+    | nil => intro _; rfl
+    | cons a r ih =>
+      intro hsub
+      have ha := hsub a List.mem_cons_self
+      have hrec : s.txrecs.find? ⟨a.hash, lb.bm.block⟩ = some a := (hg.ref.txrecs_iff _ _).mpr ⟨lb.bm, hm a ha, rfl⟩
+      rw [List.map_cons, List.mapM_cons]
+      have hb : (⟨lb.bm.block.height, lb.bm.block.hash⟩ : Block) = lb.bm.block := rfl
+      simp only [hb, hrec]
+      rw [details_mined_exact hg hs (hm a ha), ih (fun t ht => hsub t (List.mem_cons_of_mem _ ht))]
+      rfl
+  exact this lb.txs (fun t ht => ht)
+
+theorem blocksDetails_exact {s : Store} {L : Ledger} (hg : Good s L) (hs : SortedS s) :
+    ∀ (sel : List LBlock), (∀ lb ∈ sel, lb ∈ L.chain) →
+    (sel.map blockEntry).mapM (fun (p : Nat × BlockRec) => blockDetails s p.1 p.2) =
+      .ok (sel.map fun lb => lb.txs.map fun t => detailsOf L t (some lb.bm)) := by
+  intro sel
+  induction sel with
+  | nil => intro _; rfl
+  | cons lb rest ih =>
+    intro hsub
+    rw [List.map_cons, List.mapM_cons, blockDetails_exact hg hs (hsub lb List.mem_cons_self),
+      ih (fun x hx => hsub x (List.mem_cons_of_mem _ hx))]
+    rfl
+
+/-- the unconfirmed transactions in the order of the store's bucket: a permutation of the pool, ascending in hash -/
+theorem unmined_order {s : Store} {L : Ledger} (hg : Good s L) (hs : SortedS s) :
+    (s.unmined.map (·.2)).Perm L.pool ∧ ((s.unmined.map (·.2)).map (·.hash)).Pairwise (· < ·) := by
+  have hperm := unmined_perm hg
+  constructor
+  · have := hperm.map (fun p : Nat × Tx => p.2)
+    unfold expUnmined at this
+    rw [List.map_map] at this
+    have e : L.pool.map ((fun p : Nat × Tx => p.2) ∘ fun t => (t.hash, t)) = L.pool := by
+      rw [show ((fun p : Nat × Tx => p.2) ∘ fun t => (t.hash, t)) = id from rfl]; exact List.map_id _
+    rw [e] at this
+    exact this
+  · rw [List.map_map, List.pairwise_map]
+    refine hs.unmined.imp_of_mem ?_
+    intro a b ha hb hab
+    have h1 := (mem_expUnmined.mp (hperm.mem_iff.mp (show (a.1, a.2) ∈ s.unmined from ha))).2
+    have h2 := (mem_expUnmined.mp (hperm.mem_iff.mp (show (b.1, b.2) ∈ s.unmined from hb))).2
+    simp only [KOrd.lt, decide_eq_true_eq] at hab
+    simp only [Function.comp]
+    omega
+
+theorem rangeUnmined_exact {s : Store} {L : Ledger} (hg : Good s L) (hn : NoConflict L) (hs : SortedS s) :
+    rangeUnmined s = .ok (if (s.unmined.map (·.2)).isEmpty then []
+      else [(s.unmined.map (·.2)).map fun t => detailsOf L t none]) := by
+  have hperm := unmined_perm hg
+  have hmem : ∀ p ∈ s.unmined, p.2 ∈ L.pool ∧ p.1 = p.2.hash := by
+    rintro ⟨k, v⟩ hp
+    exact mem_expUnmined.mp (hperm.mem_iff.mp hp)
+  unfold rangeUnmined
+  rw [mapM_eq_map_of_forall _ (fun p : Nat × Tx => detailsOf L p.2 none) _ (by
+    intro p hp
+    obtain ⟨k, v⟩ := p
+    obtain ⟨h1, h2⟩ := hmem (k, v) hp
+    simp only at h1 h2 ⊢
+    rw [h2]
+    exact details_unmined_exact hg hn hs h1)]
+  rw [bind_ok, List.map_map]
+  cases s.unmined with
+  | nil => rfl
+  | cons a t => rfl
+
+/-- **`RangeTransactions` IS `Ledger.range`** with the unconfirmed batch in the store's order: the same batches in the
+same order; every block batch equals the ledger's (transactions in the order the wallet learned them, every record
+equal to the ledger's, record order included); the unconfirmed batch lists the pool in ascending hash order -/
+theorem range_refines_exact {s : Store} {L : Ledger} (hg : Good s L) (hn : NoConflict L) (hs : SortedS s) (b e : Int) :
+    rangeTransactions s b e = .ok (rangeWith L (s.unmined.map (·.2)) b e) := by
+  have hun1 := rangeUnmined_exact hg hn hs
+  have hmid1 : rangeBlockTransactions s b e = .ok (rangeMidL L b e) := by
+    unfold rangeBlockTransactions rangeMidL
+    simp only
+    rw [hg.ref.blocks]
+    by_cases hlt : (if b < 0 then maxInt32 else b) < (if e < 0 then maxInt32 else e)
+    · simp only [hlt, if_true]
+      rw [sel_ascending hg.lwf]
+      exact blocksDetails_exact hg hs _ (fun lb hlb => (List.mem_filter.mp hlb).1)
+    · simp only [hlt, if_false]
+      rw [sel_descending hg.lwf]
+      exact blocksDetails_exact hg hs _ (fun lb hlb => (List.mem_filter.mp (List.mem_reverse.mp hlb)).1)
+  unfold rangeTransactions rangeWith
+  by_cases hb : b < 0
+  · simp only [hb, if_true, decide_true, Bool.not_true, Bool.false_and, Bool.false_eq_true, if_false, hun1, hmid1,
+      bind_ok, pure_eq]
+  · by_cases he : e < 0
+    · simp only [hb, he, if_false, if_true, decide_true, decide_false, Bool.not_false, Bool.true_and, hun1, hmid1,
+        bind_ok, pure_eq]
+    · simp only [hb, he, if_false, decide_false, Bool.not_false, Bool.true_and, Bool.false_eq_true, hmid1, bind_ok,
+        pure_eq]
 
 end TxStore
